@@ -458,16 +458,33 @@ type k1Site struct {
 // the alternative key by function name (so that either a rename or a signature change alone
 // does not reopen an entry) and a readable description.
 func (p *Prog) k1Signature(bi BoundsInstr) (sig, alt, desc string) {
-	fn := bi.Fn
-	xo := p.Origin(bi.X)
+	return p.k1SignatureIn(bi, bi.Fn, bi.In, nil)
+}
+
+// k1SignatureIn computes the key of bi as seen from function fn at instruction at, with the
+// operand descriptors passed through subst (nil = identity). Used directly (fn = bi.Fn) and for
+// lifting a helper's obligation to a call site (fn = caller, at = the call, subst = parameters
+// replaced by the call's arguments).
+func (p *Prog) k1SignatureIn(bi BoundsInstr, fn *ssa.Function, at ssa.Instruction, subst func(*Org) *Org) (sig, alt, desc string) {
+	org := func(v ssa.Value) *Org {
+		o := p.Origin(v)
+		if subst != nil {
+			o = subst(o)
+		}
+		return o
+	}
+	xo := org(bi.X)
 	if _, isAlloc := bi.X.(*ssa.Alloc); isAlloc {
 		xo = globalOrigins.addrBase(bi.X, 0)
+		if subst != nil {
+			xo = subst(xo)
+		}
 	}
 	var terms []string
 	terms = append(terms, xo.String())
 	var shape, shapeSig string
 	if bi.Kind == "index" {
-		io := p.Origin(bi.Idx)
+		io := org(bi.Idx)
 		terms = append(terms, io.String())
 		shape = "index(" + xo.String() + ")[" + io.String() + "]"
 		shapeSig = "index(" + xo.Sig() + ")[" + io.Sig() + "]"
@@ -475,31 +492,102 @@ func (p *Prog) k1Signature(bi BoundsInstr) (sig, alt, desc string) {
 		lo, hi, mx := "_", "_", ""
 		los, his, mxs := "_", "_", ""
 		if bi.Low != nil {
-			o := p.Origin(bi.Low)
+			o := org(bi.Low)
 			lo, los = o.String(), o.Sig()
 			terms = append(terms, lo)
 			terms = append(terms, subTerms(o)...)
 		}
 		if bi.High != nil {
-			o := p.Origin(bi.High)
+			o := org(bi.High)
 			hi, his = o.String(), o.Sig()
 			terms = append(terms, hi)
 			terms = append(terms, subTerms(o)...)
 		}
 		if bi.Max != nil {
-			o := p.Origin(bi.Max)
+			o := org(bi.Max)
 			mx, mxs = ":"+o.String(), ":"+o.Sig()
 		}
 		shape = "slice(" + xo.String() + ")[" + lo + ":" + hi + mx + "]"
 		shapeSig = "slice(" + xo.Sig() + ")[" + los + ":" + his + mxs + "]"
 	}
-	gs, gsSig := p.relevantGuards(fn, bi.In, terms)
+	gs, gsSig := p.relevantGuards(fn, at, terms)
 	sig = "K1|" + fnShape(fn) + "|" + sigString(fn, shapeSig) + "|guards{" + strings.Join(gsSig, " && ") + "}"
 	alt = "K1|" + FuncName(fn) + "|" + sigString(fn, shape) + "|guards{" + strings.Join(gs, " && ") + "}"
 	if os.Getenv("QFSA_REKEY") != "" {
 		fmt.Printf("REKEY\t%s\t%s\t%s\n", "K1|"+fnShape(fn)+"|"+sigString(fn, shape)+"|guards{"+strings.Join(gs, " && ")+"}", sig, alt)
 	}
 	return sig, alt, sigString(fn, shape)
+}
+
+// paramSubst: replaces the parameters of callee by the argument descriptors of the call cs.
+func (p *Prog) paramSubst(callee *ssa.Function, cs CallSite) func(*Org) *Org {
+	args := cs.Common().Args
+	var actual []*Org
+	for _, a := range args {
+		actual = append(actual, p.Origin(a))
+	}
+	return func(o *Org) *Org {
+		return substOrg(o, func(x *Org) *Org {
+			if x.Kind == "param" && x.Fn == callee && x.Param < len(actual) {
+				return actual[x.Param]
+			}
+			return nil
+		}, 0)
+	}
+}
+
+// liftedConstIndexProved: x[k] in a helper, x a parameter: the call passes an argument a for
+// which a fresh guard k' < len(a), k' >= k, dominates the call.
+func (p *Prog) liftedConstIndexProved(bi BoundsInstr, cs CallSite) bool {
+	if bi.Kind != "index" {
+		return false
+	}
+	k, isC := constIntOf(bi.Idx)
+	if !isC || k < 0 {
+		return false
+	}
+	xo := p.paramSubst(bi.Fn, cs)(p.Origin(bi.X))
+	xs := xo.String()
+	gs, _ := p.relevantGuards(cs.Fn, cs.Call, []string{xs})
+	for _, g := range gs {
+		for j := k; j <= k+4; j++ {
+			if g == sigString(cs.Fn, fmt.Sprintf("%d < len(%s)", j, xs)) {
+				return true
+			}
+		}
+	}
+	return false
+}
+
+// liftable: an unexported helper all of whose uses are static in-module calls; its unproven
+// obligations over its parameters can be discharged at its call sites.
+func (p *Prog) liftable(fn *ssa.Function) []CallSite {
+	if fn == nil || fn.Parent() != nil || fn.Object() == nil || fn.Object().Exported() && fn.Signature.Recv() == nil {
+		return nil
+	}
+	if fn.Object().Exported() {
+		return nil
+	}
+	sites := p.CallsTo(fn)
+	if len(sites) == 0 || len(sites) > 3 {
+		return nil
+	}
+	// not used as a value
+	if refs := fn.Referrers(); refs != nil && len(*refs) > 0 {
+		return nil
+	}
+	for _, s := range sites {
+		if _, isGo := s.Call.(*ssa.Go); isGo {
+			return nil
+		}
+		if _, isDefer := s.Call.(*ssa.Defer); isDefer {
+			return nil
+		}
+		if s.Common().StaticCallee() != fn {
+			return nil
+		}
+	}
+	return sites
 }
 
 func subTerms(o *Org) []string {
@@ -1055,6 +1143,34 @@ func c09K1(c *Ctx) {
 				continue
 			}
 			sig, alt, desc := p.k1Signature(bi)
+			if _, known := rev[sig]; !known {
+				if _, knownAlt := reviewedAlt[alt]; !knownAlt {
+					// a helper extracted from a reviewed function: discharge at the call sites
+					if sites := p.liftable(bi.Fn); sites != nil {
+						allKnown := true
+						type lifted struct{ sig, alt, desc, name string }
+						var ls []lifted
+						for _, cs := range sites {
+							ls2, la, ld := p.k1SignatureIn(bi, cs.Fn, cs.Call, p.paramSubst(bi.Fn, cs))
+							_, k1 := rev[ls2]
+							_, k2 := reviewedAlt[la]
+							if !k1 && !k2 {
+								if p.liftedConstIndexProved(bi, cs) {
+									continue // proved by a guard that dominates the call
+								}
+								allKnown = false
+							}
+							ls = append(ls, lifted{ls2, la, ld, FuncName(cs.Fn)})
+						}
+						if allKnown {
+							for _, l := range ls {
+								pending[l.sig] = append(pending[l.sig], pendSite{l.name, pos, l.desc + " (in helper " + name + ", discharged at its call site)", l.alt})
+							}
+							continue
+						}
+					}
+				}
+			}
 			pending[sig] = append(pending[sig], pendSite{name, pos, desc, alt})
 		}
 	}
@@ -1124,6 +1240,28 @@ func c09K1b(c *Ctx) {
 		if why, ok := rev[sig]; ok {
 			c.OK(name, pos, "reviewed: "+why)
 			continue
+		}
+		// a helper extracted from a reviewed function: discharge at the call sites
+		if sites := p.liftable(mu.Fn); sites != nil {
+			all := true
+			why := ""
+			for _, cs := range sites {
+				lo := p.paramSubst(mu.Fn, cs)(p.Origin(mu.In.Value))
+				ok := false
+				if lo.Val != nil && p.minLenAtLeast1(lo.Val, 0) {
+					ok = true
+				}
+				if w, known := rev["K1b|"+fnShape(cs.Fn)+"|"+sigString(cs.Fn, lo.Sig())]; known {
+					ok, why = true, w
+				}
+				if !ok {
+					all = false
+				}
+			}
+			if all {
+				c.OK(name, pos, "discharged at the helper's call site(s): "+why)
+				continue
+			}
 		}
 		c.Violation(name, pos, strings.TrimPrefix(sig, "K1b|"), "a field whose length is not shown to be >= 1 is stored into a FieldMap lookup table; every reader indexes element 0. signature: "+sig)
 	}
